@@ -51,6 +51,8 @@ val flat_map : ('a1 -> 'a2 list) -> 'a1 list -> 'a2 list
 
 val fold_left : ('a1 -> 'a2 -> 'a1) -> 'a2 list -> 'a1 -> 'a1
 
+val fold_right : ('a2 -> 'a1 -> 'a1) -> 'a1 -> 'a2 list -> 'a1
+
 val existsb : ('a1 -> bool) -> 'a1 list -> bool
 
 val forallb : ('a1 -> bool) -> 'a1 list -> bool
@@ -963,3 +965,17 @@ val hn_next : exporter -> n -> n
 val adm1b : exporter -> n -> xop -> bool
 
 val admb : exporter -> n -> xop list -> bool
+
+val dkey : val0 option list -> val0 option list
+
+val oval_eqb0 : val0 option -> val0 option -> bool
+
+val okey_eqb : val0 option list -> val0 option list -> bool
+
+val dec_count : val0 option list -> val0 option -> n
+
+val dec_total : val0 option list -> val0 option list -> n
+
+val new_aec : bparams -> val0 option list -> val0 option list -> n
+
+val log_aec : exporter -> xop list -> val0 option list -> n
